@@ -464,6 +464,9 @@ type clientReader struct {
 	buf  []byte
 	err  error
 	done chan struct{}
+	hold atomic.Bool // true: the client does not read (a Read in flight still completes)
+	// holdAfter > 0: the client stops reading by itself once it has received that many bytes
+	holdAfter atomic.Int64
 }
 
 func startReader(c net.Conn) *clientReader {
@@ -471,11 +474,18 @@ func startReader(c net.Conn) *clientReader {
 	go func() {
 		b := make([]byte, 64<<10)
 		for {
+			for r.hold.Load() {
+				time.Sleep(2 * time.Millisecond)
+			}
 			n, err := c.Read(b)
 			r.mu.Lock()
 			r.buf = append(r.buf, b[:n]...)
 			if err != nil {
 				r.err = err
+			}
+			if ha := r.holdAfter.Load(); ha > 0 && int64(len(r.buf)) >= ha {
+				r.holdAfter.Store(0)
+				r.hold.Store(true)
 			}
 			r.mu.Unlock()
 			if err != nil {
